@@ -21,18 +21,21 @@ TRUSTED_BASE = [
 ]
 ASSUMPTIONS = [
     "per-node request timestamps strictly increase (wall clock does not step backwards between two requests of one node)",
-    "atomicity: the unlocked reads of res.version in rollback/broadcastAbortOrCommit/Commit are modelled as part of the "
-    "neighbouring critical section (a data race window of a few instructions in twopc.go is not modelled)",
+    "atomicity: Commit() reads res.version twice without the mutex while the state is hasPreCommitted; modelled as one atomic "
+    "step, sound because no install can happen at the proposer in that state (stale_read_aborts/no_panic). The third unlocked read "
+    "(broadcastAbortOrCommit after rollback) was a real race and is repaired (84372a69); free-running stress cases cover such races",
     "application contract of distsys.MPCalContext: Read/Write only outside PreCommit/Commit, Commit only after PreCommit returned nil",
     "contenders_progress is proved from released states (no operation in flight, no accepted pre-commit held at any replica) for "
-    "a proposer at the highest version and any reachable majority; that aborted proposals reach such a state is abort_releases "
-    "(per replica) plus the implementation-side epilogue check, not one theorem; a pre-commit held for a crashed proposer blocks (2PC)",
+    "a proposer at the highest version and any reachable majority; aborts_drain / aborted_proposals_then_progress: from every state in "
+    "which each accepted pre-commit belongs to a proposer that is rolling back (`draining`), delivering the Aborts reaches a released "
+    "state and a contender then commits. Not covered: pre-commits whose Abort was lost for good (released by the next Commit or a "
+    "higher pre-commit, checked by the epilogue only) and a pre-commit held for a crashed proposer (2PC blocks)",
 ]
 RULE = ("cases = schedules for the driver-controlled network from one PRNG (VERIF_SEED): 2-7 replicas, 1-4 writers, 20-60 random "
         "events picked among the enabled ones (application call / first delivery / answer / duplicate delivery / answer with an "
         "older reply / time-out of a pre-commit send; thorough: also time-outs of abort/commit sends) with per-case weights, then "
         "a fault-free epilogue; every schedule is run over the local and the gob transport (some also by-reference through "
-        "TwoPCReceiver.Receive). Corpus = minimised witnesses of the four defects found. Non-trivial = at least two proposers sent "
+        "TwoPCReceiver.Receive); plus free-running RPC smoke and in-process stress runs. Corpus = minimised witnesses of the four defects found. Non-trivial = at least two proposers sent "
         "a pre-commit; distinct by the concrete event trace.")
 
 RULES = "(mkRules true true true)"
@@ -109,6 +112,31 @@ def smoke_cases(tier, base):
     return out
 
 
+def stress_cases(tier, base):
+    """free-running in-process replicas under contention: goroutine-level races of twopc.go (the driver-stepped
+    cases cannot interleave inside a function); an assertion failure kills the harness and is reported as a crash"""
+    spec = [(3, 2500)] if tier == "quick" else [(3, 15000), (5, 15000), (2, 8000)]
+    return [{"id": base + i, "kind": "stress", "n": n, "init": 0, "writers": list(range(n)), "deadline_ms": ms}
+            for i, (n, ms) in enumerate(spec)]
+
+
+def stress_oracle(c, r):
+    f = r.get("final") or {}
+    if not f:
+        return [("stress-no-result", "stress run produced no result: %s" % r.get("err"))]
+    fails = []
+    if not f["finished"]:
+        fails.append(("stress-hang", "writers did not return after the deadline: done %s" % f["done"]))
+    total = sum(f["done"])
+    bad = [(i, s["ver"], s["old"]) for i, s in enumerate(f["snaps"]) if s["old"] != c["init"] + s["ver"]]
+    if bad:
+        fails.append(("stress-lost-update", "every commit adds one to the value it read, so version k must hold init+k; (replica, version, value) = %s" % bad[:4]))
+    top = max(s["ver"] for s in f["snaps"])
+    if top != total and not fails:
+        fails.append(("stress-version-count", "%d commits returned but the highest version is %d" % (total, top)))
+    return fails
+
+
 def smoke_oracle(c, r):
     f = r.get("final") or {}
     fails = []
@@ -153,12 +181,14 @@ def run(ctx):
                 cases.append(cc)
     for i, c in enumerate(cases):
         c["id"] = i
-    stepped = [c for c in cases if c.get("kind") != "smoke"]
+    stepped = [c for c in cases if c.get("kind") not in ("smoke", "stress")]
     smokes = [c for c in cases if c.get("kind") == "smoke"]
+    stresses = [c for c in cases if c.get("kind") == "stress"]
     if not ctx.replay:
         smokes = smoke_cases(tier, len(cases))
+        stresses = stress_cases(tier, len(cases) + len(smokes))
     t0 = time.time()
-    results, crashes = run_harness(stepped + smokes)
+    results, crashes = run_harness(stepped + smokes + stresses)
     t_harness = time.time() - t0
     for bad, err, rc in crashes:
         ctx.failures.append({"signature": "harness-crash-%s" % bad.get("transport", bad.get("kind")),
@@ -207,6 +237,13 @@ def run(ctx):
         stats["smoke"].append({"n": c["n"], "done": f.get("done"), "elapsed_ms": f.get("elapsed_ms")})
         ctx.add_case("smoke %d %s" % (c["n"], f.get("done")), True)
         for sig, what in smoke_oracle(c, r):
+            ctx.failures.append({"signature": sig, "what": what, "case": c, "obs": f})
+    for c in stresses:
+        r = results.get(c["id"], {})
+        f = r.get("final") or {}
+        stats.setdefault("stress", []).append({"n": c["n"], "ms": c["deadline_ms"], "commits": sum(f.get("done") or [0])})
+        ctx.add_case("stress %d %s" % (c["n"], f.get("done")), True)
+        for sig, what in stress_oracle(c, r):
             ctx.failures.append({"signature": sig, "what": what, "case": c, "obs": f})
     ctx.extra["input_distribution"] = stats
     ctx.extra["harness_seconds"] = round(t_harness, 1)
@@ -262,9 +299,9 @@ MANIFEST = {
     "technique": ("Coq proof of an inductive invariant of the 2PC protocol over all interleavings with delay/loss/duplication, any number "
                   "of replicas; differential correspondence model vs twopc.go under a driver-controlled network; implementation-side "
                   "oracle (agreement, one winner, stale sections, release, progress epilogue, transport independence, RPC smoke)"),
-    "text": ("Theorems in coq/Properties/C11.v, closed under the global context, about the repaired code (three fix commits): "
+    "text": ("Theorems in coq/Properties/C11.v, closed under the global context, about the repaired code (four fix commits): "
              "version_monotone, agreement, agreement_state, one_winner_per_version, one_pending_winner, stale_read_aborts, no_panic, "
-             "abort_releases, contenders_progress (from released states, any reachable majority), contenders_progress_all, transport_independent. The invariant (coq/C11/Proofs1.v) is "
+             "abort_releases, aborts_drain, aborted_proposals_then_progress, contenders_progress (from released states, any reachable majority), contenders_progress_all, transport_independent. The invariant (coq/C11/Proofs1.v) is "
              "proved inductive for every event list, any n. The model is tied to twopc.go on every run by replaying the concrete "
              "traces of several hundred schedules (2-7 replicas, 1-4 writers, duplicates, time-outs, both transports)."),
     "level_note": ("Trusted: Coq kernel; the hand-written model (tie = differential testing: a code change is caught if a generated schedule "
